@@ -9,6 +9,24 @@ CHECKS = {
              note="Trusts the Python offset model (lines split at \\n, one column per byte) and the driver's faithful printing of the public Lexer::tokenize() result.",
              ref="DESIGN.md §4 C15"),
 }
+CHECKS.update({
+ "C01": dict(technique="property-based testing: exhaustive small-n enumeration of every gate x target x basis state against a numpy Kronecker-product reference (one global phase per matrix) + Hypothesis-generated entangled states and Bloch programs",
+             text="For n<=5 (thorough 7) the complete 2^n x 2^n matrix of every built-in gate on every target / ordered cx pair is read back through the amplitude hook and compared with U_ref (x) I up to a single global phase; random entangling circuits (n<=6/8) then check one gate on states with superposed targets. Exhaustive for the enumerated sizes and angle list, exploration beyond.",
+             note="Trusts the numpy reference and the BLOCH_VERIF amplitude accessor; angles come from a fixed list plus random doubles.",
+             ref="DESIGN.md §4 C01"),
+ "C02": dict(technique="property-based testing: exact projection oracle on generated gate/measure histories + binomial/multinomial tests (z=5.5) on the simulator's own seeded draws",
+             text="Every measurement in generated histories is compared amplitude-by-amplitude with the normalised projection onto the reported outcome (impossible outcomes are violations); Born-rule frequencies are tested on shaped states (p1 from 0 to 1, entangled partners) and on full sequential measurement of entangled registers.",
+             note="Statistical part: deterministic seeds, z=5.5 (false alarm < 4e-8 per test). Trusts numpy reference, RNG-seeding and outcome-log hooks.",
+             ref="DESIGN.md §4 C02"),
+ "C03": dict(technique="model-based (stateful) property testing: generated alloc/gate/cx/measure/reset histories with invariants checked after every step",
+             text="Histories are generated against a small model so that only valid operations occur; after every step the amplitude vector must have length 2^n, be finite and of unit norm, alloc must equal psi_old (x) |0> exactly, gates/measurements match the reference and reset is one of the valid branches.",
+             note="Continues from the implementation's own state after each step so errors do not compound; trusts numpy reference and amplitude hook.",
+             ref="DESIGN.md §4 C03"),
+ "C04": dict(technique="property-based testing with a statistical oracle: frequency-weighted reduced density matrix of the non-target qubits over K seeded resets vs partial trace of the pre-reset state",
+             text="Implementation-agnostic locality oracle: whatever branches reset takes, their frequency-weighted mixture restricted to the other qubits must equal the partial trace of psi_before (6 sigma), and every branch must have zero amplitude wherever the target bit is set. Found and led to the repair of the projection-style reset.",
+             note="K=3000 repetitions per state, tolerance 6*sqrt(1/4K); trusts numpy partial trace and hooks.",
+             ref="DESIGN.md §4 C04"),
+})
 REASONS = {}
 def main():
     hooks = subprocess.run(["git","-C","/repo","log","--format=%h %s","--grep=^verif hooks"],capture_output=True,text=True).stdout.strip().splitlines()
